@@ -384,6 +384,8 @@ func stressRegistry(dur time.Duration, seed int64) string {
 	var wg sync.WaitGroup
 	stop := time.Now().Add(dur)
 	live := make([]int, stressWorkers)
+	hotFresh := make([]int64, 3)
+	hotGone := make([]int64, 3)
 	for w := 0; w < stressWorkers; w++ {
 		wg.Add(1)
 		go func(w int) {
@@ -413,6 +415,18 @@ func stressRegistry(dur time.Duration, seed int64) string {
 					shared.GetTopics()
 					shared.RemoveTopic(t)
 				}
+				// contended names: every worker creates and deletes the same few ids; for a linearizable
+				// registry (fresh insertions - successful removals) of an id is 0 or 1 = its presence at the end
+				h := rng.Intn(len(hotFresh))
+				hid := fmt.Sprintf("hot-%d", h)
+				if rng.Intn(2) == 0 {
+					s, _ := sessions.NewSession(hid, "mp", "tcp", nopConn{}, &packet.Connect{ClientId: []byte(hid), KeepaliveTimer: 60})
+					if reg.Create(hid, s) == nil {
+						atomic.AddInt64(&hotFresh[h], 1)
+					}
+				} else if reg.Delete(hid) != nil {
+					atomic.AddInt64(&hotGone[h], 1)
+				}
 			}
 			live[w] = alive
 		}(w)
@@ -422,5 +436,18 @@ func stressRegistry(dur time.Duration, seed int64) string {
 	for _, n := range live {
 		want += n
 	}
-	return fmt.Sprintf("registry-missing=%d leftover-filters=%d", want-len(reg.ListSessions()), len(shared.GetTopics()))
+	imbalance := int64(0)
+	for h := range hotFresh {
+		present := int64(0)
+		if reg.Get(fmt.Sprintf("hot-%d", h)) != nil {
+			present = 1
+			want++
+		}
+		d := hotFresh[h] - hotGone[h] - present
+		if d < 0 {
+			d = -d
+		}
+		imbalance += d
+	}
+	return fmt.Sprintf("registry-missing=%d leftover-filters=%d contended-imbalance=%d", want-len(reg.ListSessions()), len(shared.GetTopics()), imbalance)
 }
